@@ -345,3 +345,7 @@ register(Prop('C19', 'the C++ port computes the same results', None, None, speci
               partial='no for-all statement about the C++ code: the port is compared, on generated inputs of the shared domain, with the Go library whose model carries the theorems',
               rule='grammar-driven ranges (+ token sweep), frame lists, pad widths/tokens, sequence tuples of the unambiguous domain, directories of uniformly padded sequences x option subsets; Go vs C++ on projected observables'))
 PROPS['C19'].technique = 'translation validation: differential run of the C++ port against the Go library (whose Coq model carries the theorems)'
+
+register(Prop('C20', 'handle table keeps an object alive exactly while referenced', None, None, special=special.c20_special,
+              partial='the xorshift full-period claim is a Section hypothesis; the Go memory model (atomics, RWMutex) is represented by atomic blocks',
+              rule='disciplined histories of Add/Incref/Decref/Get/Len over up to 8 handles and 8 threads, each under a random schedule replayed on the implementation through yield hooks; all interleavings of small two-owner histories; single-threaded histories with stale handles; race-detector stress'))
